@@ -95,6 +95,62 @@ void group_op(const void * p, int t, std::vector<double> & out)
   put(out, (s->bdl[i] * s->bdl[j]).coeffs());
   put(out, s->bdl[i].log());
   put(out, Bdl::dr_exp(s->bdl[j].log()));
+  // complete the const API on every family (each call is a potential site of hidden static / scratch state)
+  put(out, Bdl::d2r_exp(s->bdl[i].log()));
+  put(out, Bdl::d2r_expinv(s->bdl[j].log()));
+  put(out, Bdl::d2l_exp(s->bdl[j].log()));
+  put(out, Bdl::dr_expinv(s->bdl[i].log()));
+  put(out, Bdl::dl_exp(s->bdl[i].log()));
+  put(out, Bdl::ad(s->bdl[j].log()));
+  put(out, Bdl::hat(s->bdl[i].log()));
+  put(out, s->bdl[i].Ad());
+  put(out, s->bdl[j].inverse().coeffs());
+  put(out, s->bdl[i].matrix());
+  put(out, Bdl::exp(s->bdl[j].log()).coeffs());
+  put(out, s->bdl[i].template cast<float>().coeffs().template cast<double>());
+  put(out, SO3d::dr_expinv(s->a3[size_t(t) % 4]));
+  put(out, SO3d::dl_exp(s->a3[i]));
+  put(out, SO3d::dl_expinv(s->a3[j]));
+  put(out, SO3d::d2r_expinv(s->a3[i]));
+  put(out, SO3d::d2l_exp(s->a3[j]));
+  put(out, SO3d::d2l_expinv(s->a3[i]));
+  put(out, SO3d::ad(s->a3[j]));
+  put(out, SO3d::hat(s->a3[i]));
+  put(out, SO3d::lie_bracket(s->a3[i], s->a3[j]));
+  put(out, s->so3[i].Ad());
+  put(out, s->so3[i].matrix());
+  put(out, s->so3[i] * s->a3[j]);
+  put(out, s->so3[i].dr_action(s->a3[j]));
+  put(out, s->so3[i].eulerAngles());
+  put(out, s->so3[j].project_so2().coeffs());
+  put(out, s->so3[i].template cast<float>().coeffs().template cast<double>());
+  put(out, SE3d::dl_exp(s->a6[i]));
+  put(out, SE3d::dl_expinv(s->a6[j]));
+  put(out, SE3d::d2l_exp(s->a6[j]));
+  put(out, SE3d::hat(s->a6[i]));
+  put(out, SE3d::lie_bracket(s->a6[i], s->a6[j]));
+  put(out, s->se3[i].dr_action(s->a3[j]));
+  put(out, s->se3[j].project_se2().coeffs());
+  put(out, s->se3[i].isometry().matrix());
+  put(out, (s->se2[i].inverse()).coeffs());
+  put(out, s->se2[i].Ad());
+  put(out, s->se2[i].matrix());
+  put(out, SE2d::exp(s->se2[j].log()).coeffs());
+  put(out, SE2d::dr_exp(s->se2[j].log()));
+  put(out, SE2d::dr_expinv(s->se2[i].log()));
+  put(out, SE2d::d2r_expinv(s->se2[j].log()));
+  put(out, s->se2[i].lift_se3().coeffs());
+  put(out, s->se2[i] * Eigen::Vector2d(0.3, -1));
+  put(out, s->gal[i].inverse().coeffs());
+  put(out, s->gal[i].matrix());
+  put(out, Galileid::dr_expinv(s->a10[j]));
+  put(out, Galileid::dl_exp(s->a10[j]));
+  put(out, Galileid::ad(s->a10[i]));
+  put(out, Galileid::hat(s->a10[i]));
+  put(out, s->gal[i] * Eigen::Vector4d(0.3, -1, 0.5, 2));
+  put(out, s->gal[j].dr_action(Eigen::Vector4d(0.3, -1, 0.5, 2)));
+  put(out, lminus(s->se3[i], s->se3[j]));
+  put(out, lplus(s->se3[i], s->a6[j]).coeffs());
   put(out, rminus(s->se3[i], s->se3[j]));
   put(out, rplus(s->se3[i], s->a6[j]).coeffs());
   put(out, dr_rminus<SE3d>(s->a6[i]));
